@@ -13,6 +13,7 @@ from ropt.ensemble_evaluator import EnsembleEvaluator
 from ropt.enums import OptimizerExitCode
 from ropt.exceptions import OptimizationAborted
 from ropt.plugins import PluginManager
+from ropt.plugins.realization_filter.base import RealizationFilter, RealizationFilterPlugin
 
 ID = "C01"
 LEVEL = "exploration"
@@ -33,7 +34,34 @@ ASSUMPTIONS = [
     "cases where no successful realization has positive weight are counted but not compared (value undefined)",
 ]
 
+def score_weights(column: np.ndarray) -> np.ndarray:
+    """Weights of the third-party filter below: 1 + number of successful realizations with a smaller value (0 for failed ones).
+
+    A filter may return any non-negative weights (they are normalized later), these are mostly larger than one.
+    """
+    ok = ~np.isnan(column)
+    return np.array([1.0 + float(np.count_nonzero(column[ok] < v)) if good else 0.0 for v, good in zip(column, ok)])
+
+
+class ScoreFilter(RealizationFilter):
+    def __init__(self, enopt_config: EnOptConfig, filter_index: int) -> None:  # noqa: D107
+        del enopt_config, filter_index
+
+    def get_realization_weights(self, objectives: np.ndarray, constraints: np.ndarray | None) -> np.ndarray:
+        del constraints
+        return score_weights(np.asarray(objectives)[:, 0])
+
+
+class ScoreFilterPlugin(RealizationFilterPlugin):
+    def create(self, enopt_config: EnOptConfig, filter_index: int) -> ScoreFilter:
+        return ScoreFilter(enopt_config, filter_index)
+
+    def is_supported(self, method: str) -> bool:
+        return method.lower() == "score"
+
+
 _MANAGER = PluginManager()
+_MANAGER.add_plugin("realization_filter", "verif", ScoreFilterPlugin())
 RTOL = 1e-10
 
 
@@ -134,6 +162,11 @@ def oracle_one(case: dict[str, Any], cfg: EnOptConfig, res: Any, x: np.ndarray, 
             if filter_of(case, kind, idx) >= 0:
                 check(rows is not None, "weights-missing", f"{kind} {idx} is filtered but no weights are reported", case)
                 w = np.asarray(rows[idx], dtype=np.float64)
+                if case["filters"][filter_of(case, kind, idx)]["method"] == "verif/score":
+                    # what the third-party filter returned is what is in force (up to the normalization, failed realizations dropped)
+                    exp_w = score_weights(np.where(failed, np.nan, table[:, 0]))
+                    check(bool(np.allclose(w * exp_w.sum(), exp_w * w.sum(), rtol=1e-12, atol=1e-12)), "filter-weights-altered",
+                          f"{kind} {idx}: weights in force {w.tolist()} are not proportional to what the filter returned {exp_w.tolist()}", case)
             else:
                 w = configured
             w = np.where(failed, 0.0, w)
@@ -287,6 +320,8 @@ def _ranks_on(case: dict[str, Any], filt: int, col: int) -> bool:
     if filt < 0:
         return False
     spec = case["filters"][filt]
+    if spec["method"] == "verif/score":
+        return col == 0
     srt = spec["options"]["sort"]
     if spec["method"].endswith("objective"):
         return col in srt
@@ -317,7 +352,10 @@ def hypothesis_shard(item: dict[str, Any]) -> Collector:
         f_n = draw(st.integers(0, 2))
         filters = []
         for _ in range(f_n):
-            kind = draw(st.sampled_from(["sort-objective", "cvar-objective"] + (["sort-constraint", "cvar-constraint"] if c_n else [])))
+            kind = draw(st.sampled_from(["sort-objective", "cvar-objective", "verif/score"] + (["sort-constraint", "cvar-constraint"] if c_n else [])))
+            if kind == "verif/score":  # a third-party filter (plug-in) that returns scores larger than one
+                filters.append({"method": kind})
+                continue
             if kind.startswith("sort"):
                 first = draw(st.integers(0, r_n - 1))
                 opts: dict[str, Any] = {"first": first, "last": draw(st.integers(first, r_n - 1))}
